@@ -116,6 +116,10 @@ def scenarios() -> list[tuple]:
         for name in path:
             for ph in phases[:build_msgs - 1]:
                 out.append((h, f"dead:{name}", ph))
+        # the first hop never answers (dead before the create arrives) while the originator's application asks for more
+        # circuits of this length during the removal delay of the given-up circuit, and stops asking 8 s later
+        if h >= 2:
+            out.append((h, f"dead:{path[0]}+wanting", ("build", 0)))
         # ... and the same with a second candidate (A1) for that position, so that the retry has somebody to turn to:
         # pos 0 = the first hop O picked dies, pos 1 (h = 3) = the second hop O picked from R1's candidates dies
         if h >= 2:
@@ -168,6 +172,8 @@ def run_one(scn: tuple, faults: dict[int, str], seed: int):  # noqa: ANN201
             # the legacy-key peer becomes known to the path nodes only once the circuit under test exists
             for name in ROLES:
                 ov[name].candidates.pop(w.peer_of(name, "L"), None)
+        if busy == "wanting":
+            w.run_for(2.5)       # the periodic sweeps (every 5 s from t = 0) then fall inside the 5 s removal delay
         if ini.startswith("deadalt"):
             if ini == "deadalt:0":
                 w.restrict("O", ["R1", "A1", "X"])
@@ -201,7 +207,7 @@ def run_one(scn: tuple, faults: dict[int, str], seed: int):  # noqa: ANN201
         if busy:
             for name in path:
                 o = ov[name]
-                if busy in ("chatty", "noipv6"):
+                if busy in ("chatty", "noipv6", "wanting"):
                     continue
                 if busy == "busy":
                     o.candidates.clear()        # knows nobody it could build through ...
@@ -219,7 +225,13 @@ def run_one(scn: tuple, faults: dict[int, str], seed: int):  # noqa: ANN201
             w.send_out("O", c, ("9.9.9.9", 99), BT_PAYLOAD)
         did = _teardown(w, ini, cid)
         T = deadline(ov["O"].settings)
-        if busy == "chatty":
+        if busy == "wanting":
+            w.run_for(11.0)
+            ov["O"].circuits_needed[h] = 2
+            w.run_for(9.0)
+            ov["O"].circuits_needed.clear()
+            w.run_for(T - 20.0)
+        elif busy == "chatty":
             end = w.loop.time() + T
             while w.loop.time() < end:
                 w.run_for(min(CHATTER_PERIOD, end - w.loop.time()))
@@ -235,6 +247,12 @@ def run_one(scn: tuple, faults: dict[int, str], seed: int):  # noqa: ANN201
         live = (ini != "O" and w.nodes["O"].endpoint.is_open() and o_circ is not None
                 and o_circ.state != "CLOSING")
         trail = f"h={h} faults={faults} action={did}; first datagrams after trigger: {plan.log[:10]}"
+        dead = [n for n, o in ov.items() if not (o.is_pending_task_active("do_circuits")
+                                                 and o.is_pending_task_active("do_ping"))]
+        if dead:
+            viol.append((f"sweep-dead|initiator:{ini.split(':')[0]}|phase:{phase}",
+                         f"the periodic do_circuits/do_ping task of {dead} has ended: these nodes never again reclaim "
+                         f"anything by inactivity, age or traffic; {trail}"))
         if ini == "O" and did == "remove_circuit" and cid in ov["O"].circuits:
             viol.append((f"originator-keeps-circuit|phase:{phase}", f"O still has the circuit it removed; {trail}"))
         if live and o_circ.state == "EXTENDING":
@@ -896,7 +914,8 @@ def run(ctx: core.Ctx) -> core.Report:
         for s in scns:
             h, ini, (ph, k) = s
             last = {1: 1, 2: 5, 3: 11}[h]
-            if ph != "build" or k in (1, last, (last + 1) // 2) or (str(ini).startswith("deadalt") and k in (0, 3)):
+            if ph != "build" or k in (1, last, (last + 1) // 2) or (str(ini).startswith("deadalt") and k in (0, 3)) \
+                    or "wanting" in str(ini):
                 keep.append(s)
         scns = keep
     _HS_BOUND = 2 if ctx.thorough else 1
